@@ -276,6 +276,10 @@ def rules(ctx):
     r3_space_shifts(ctx)
     # "orthogonal in the model's metric": the tensor handed to the Householder step is the model's metric also in single precision -
     # an algebraically equal closed form that subtracts two quantities with the same limit is another number there (same rule as C09.R8)
+    # the re-centring (and the rejection of a proposal on log_v0) relies on the snapshot / revert protocol of the state: the snapshot records every
+    # forked entry, unset ones included (same rule as C02.R1)
+    from .c02 import r1_snapshot
+    r1_snapshot(ctx, rid="C10.R5", title="the snapshot taken at an assignment keeps every forked entry, unset ones included (a rejected velocity leaves no derived value behind)")
     from .c09 import r8_conditioning
     r8_conditioning(ctx, rid="C10.R4", title="the functions of the positions g feeding the metric subtract no two quantities with the same limit on (0, +inf)")
     ctx.trust("torch.exp/log/mean algebra used by the charge domain (exp(a+m) = exp(a)exp(m), ...); sign/norm homogeneity")
